@@ -836,4 +836,163 @@ theorem slpNSamples_tags (M : List MapRow) (fut : MapRow → Bool) (S : Nat) (hn
   rw [hp.length_eq]
   simp
 
+/-! ### straddling present variables (present, but with a mapping row at a future step) -/
+
+/-- present and not straddling -/
+def nsMask : List Bool → List Bool → List Bool
+  | m :: ms, s :: ss => (!m && !s) :: nsMask ms ss
+  | _, _ => []
+
+theorem length_addVec (a b : List Rat) (h : a.length = b.length) : (addVec a b).length = a.length := by
+  induction a generalizing b with
+  | nil => simp [addVec]
+  | cons x a ih =>
+    cases b with
+    | nil => simp at h
+    | cons y b => simp [addVec, ih b (by simpa using h)]
+
+theorem length_totalCosts (c : List Rat) (samples : List (List Rat)) (n : Nat) (hc : c.length = n)
+    (hs : ∀ s ∈ samples, s.length = n) : (totalCosts c samples).length = n := by
+  induction samples with
+  | nil => simpa [totalCosts] using hc
+  | cons s rest ih =>
+    have h1 := ih (fun t ht => hs t (by simp [ht]))
+    have h2 := hs s (by simp)
+    simp only [totalCosts]
+    rw [length_addVec s _ (by omega), h2]
+
+theorem length_meanSel (k : Rat) (strad : List Bool) (c tot : List Rat) : (meanSel k strad c tot).length = c.length := by
+  induction strad generalizing c tot with
+  | nil => cases c <;> simp [meanSel]
+  | cons b bs ih =>
+    cases c with
+    | nil => simp [meanSel]
+    | cons a c =>
+      cases tot with
+      | nil => simp [meanSel]
+      | cons t tot => simp [meanSel, ih]
+
+theorem selCost_addVec (sel : Bool → Bool) (L : List Bool) (a b : List Rat) (ha : a.length = L.length)
+    (hb : b.length = L.length) (x : Vec) :
+    selCost sel L (addVec a b) x = selCost sel L a x + selCost sel L b x := by
+  induction L generalizing a b x with
+  | nil => cases a <;> cases b <;> simp_all [selCost]
+  | cons l L ih =>
+    cases a with
+    | nil => simp at ha
+    | cons p a =>
+    cases b with
+    | nil => simp at hb
+    | cons q b =>
+      simp only [addVec, selCost]
+      rw [ih a b (by simpa using ha) (by simpa using hb)]
+      split <;> ring
+
+theorem selCost_totalCosts (L : List Bool) (c : List Rat) (samples : List (List Rat)) (hc : c.length = L.length)
+    (hs : ∀ s ∈ samples, s.length = L.length) (x : Vec) :
+    selCost id L (totalCosts c samples) x =
+      selCost id L c x + ((List.range samples.length).map fun i => selCost id L (samples.getD i []) x).sum := by
+  induction samples with
+  | nil => simp [totalCosts]
+  | cons s rest ih =>
+    have hrest : ∀ t ∈ rest, t.length = L.length := fun t ht => hs t (by simp [ht])
+    simp only [totalCosts, List.length_cons]
+    rw [selCost_addVec id L s _ (hs s (by simp)) (length_totalCosts c rest L.length hc hrest), ih hrest,
+      sum_range_succ_shift]
+    simp only [List.getD_cons_zero, List.getD_cons_succ]
+    ring
+
+theorem selCost_zero (sel : Bool → Bool) (L : List Bool) (c : List Rat) : selCost sel L c (fun _ => 0) = 0 := by
+  induction L generalizing c with
+  | nil => cases c <;> simp [selCost]
+  | cons l L ih =>
+    cases c with
+    | nil => simp [selCost]
+    | cons a c => simp [selCost, ih]
+
+theorem nsMask_getD (mask strad : List Bool) (j : Nat) (h : (nsMask mask strad).getD j false = true) :
+    mask.getD j false = false ∧ strad.getD j false = false := by
+  induction mask generalizing strad j with
+  | nil => simp [nsMask] at h
+  | cons m ms ih =>
+    cases strad with
+    | nil => simp [nsMask] at h
+    | cons s ss =>
+      cases j with
+      | zero =>
+        simp only [nsMask, List.getD_cons_zero, Bool.and_eq_true, Bool.not_eq_true'] at h
+        simpa using h
+      | succ j =>
+        have := ih ss j (by simpa [nsMask] using h)
+        simpa using this
+
+/-- the present part of a cost vector = non-straddling present part + straddling part -/
+theorem selCost_not_split (mask strad : List Bool) (c : List Rat) (hs : strad.length = mask.length)
+    (hc : c.length = mask.length) (hdis : ∀ j, strad.getD j false = true → mask.getD j false = false) (x : Vec) :
+    selCost (!·) mask c x = selCost id (nsMask mask strad) c x + selCost id strad c x := by
+  induction mask generalizing strad c x with
+  | nil => cases strad <;> cases c <;> simp_all [selCost, nsMask]
+  | cons m ms ih =>
+    cases strad with
+    | nil => simp at hs
+    | cons s ss =>
+    cases c with
+    | nil => simp at hc
+    | cons a c =>
+      have h0 := hdis 0
+      simp only [List.getD_cons_zero] at h0
+      simp only [selCost, nsMask, id]
+      rw [ih ss c (by simpa using hs) (by simpa using hc)
+        (fun j hj => by simpa using hdis (j + 1) (by simpa using hj))]
+      cases m <;> cases s <;> simp_all <;> ring
+
+/-- cost vector with the straddling entries replaced by `tot/k`, split along a mask disjoint from the straddling
+    positions: the unselected (present) part and the selected (future) part -/
+theorem selCost_meanSel (k : Rat) (mask strad : List Bool) (c tot : List Rat) (hs : strad.length = mask.length)
+    (hc : c.length = mask.length) (ht : tot.length = mask.length)
+    (hdis : ∀ j, strad.getD j false = true → mask.getD j false = false) (x : Vec) :
+    selCost (!·) mask (meanSel k strad c tot) x =
+        selCost id (nsMask mask strad) c x + selCost id strad tot x / k ∧
+      selCost id mask (meanSel k strad c tot) x = selCost id mask c x := by
+  induction mask generalizing strad c tot x with
+  | nil => cases strad <;> cases c <;> cases tot <;> simp_all [selCost, nsMask]
+  | cons m ms ih =>
+    cases strad with
+    | nil => simp at hs
+    | cons s ss =>
+    cases c with
+    | nil => simp at hc
+    | cons a c =>
+    cases tot with
+    | nil => simp at ht
+    | cons t tot =>
+      have h0 := hdis 0
+      simp only [List.getD_cons_zero] at h0
+      obtain ⟨ih1, ih2⟩ := ih ss c tot (by simpa using hs) (by simpa using hc) (by simpa using ht)
+        (fun j hj => by simpa using hdis (j + 1) (by simpa using hj)) (fun j => x (j + 1))
+      simp only [meanSel, selCost, nsMask, id]
+      rw [ih1, ih2]
+      constructor
+      · cases m <;> cases s <;> simp_all <;> ring
+      · cases m <;> cases s <;> simp_all
+
+/-- objective of the SLP (since commit 20639b0): non-straddling present part once; straddling present part and
+    future part as means over the `S+1` scenarios -/
+theorem slp_cost_eq_strad (k : Rat) (mask strad : List Bool) (c : List Rat) (samples : List (List Rat))
+    (hst : strad.length = mask.length) (hc : c.length = mask.length)
+    (hs : ∀ cs ∈ samples, cs.length = mask.length)
+    (hdis : ∀ j, strad.getD j false = true → mask.getD j false = false) (z : Vec) :
+    costAt (scaleSel k mask (presentCosts k strad c samples) ++ sampleCosts k mask samples) 0 z =
+      selCost id (nsMask mask strad) c z +
+        (selCost id strad c z + ((List.range samples.length).map fun i =>
+          selCost id strad (samples.getD i []) z).sum) / k +
+        (selCost id mask c z + ((List.range samples.length).map fun i =>
+          selCost id mask (samples.getD i []) (fun j => z (slpEmbed mask c.length (i + 1) j))).sum) / k := by
+  unfold presentCosts
+  have hlen : (meanSel k strad c (totalCosts c samples)).length = c.length := length_meanSel _ _ _ _
+  have htot : (totalCosts c samples).length = mask.length := length_totalCosts c samples _ hc hs
+  rw [slp_cost_eq k mask _ samples (by rw [hlen]; exact hc) hs z, hlen]
+  obtain ⟨h1, h2⟩ := selCost_meanSel k mask strad c (totalCosts c samples) hst hc htot hdis z
+  rw [h1, h2, selCost_totalCosts strad c samples (by omega) (fun s h => by rw [hs s h, hst])]
+
 end EAO.Slp
